@@ -30,6 +30,7 @@ CONSTANTS Ops,            \* operation slots; each is used for at most one opera
           Horizon,        \* the clock stops advancing here (model checking only)
           AllowFaults,    \* transport faults enabled
           AllowStall,     \* the peer may stop reading: the driver blocks in the middle of a send until the peer resumes
+          AdapterErrors,  \* an adapter of an adapted search may fail on an entry
           AllowCancel,    \* the caller may drop an operation future while it waits (select!, an outer timeout): no scrub is sent
           AbstractTime,   \* TRUE: a timer may fire at any moment (no clock); FALSE: explicit clock `now`
           \* named deviations of the pinned code; all FALSE = the design the properties describe
@@ -183,6 +184,17 @@ NextItem(o) ==        \* an entry / referral / intermediate message
   /\ deadline' = [deadline EXCEPT ![o] = NoDeadline]
   /\ UNCHANGED <<alloc, queues, maps, reply, itemTx, itemRx, kind, oid, target, tmo, adapted, sstate, sres, envv, sentFor, now>>
 
+(* an adapter of the chain (user code) fails on the entry it was handed: the entry is consumed, the stream is in Error, and -
+   unlike a timeout - nothing has told the driver: finish() must still scrub *)
+NextAdapterErr(o) ==
+  /\ phase[o] = "next" /\ adapted[o] /\ itemQ[o] # <<>> /\ Head(itemQ[o]).typ = "ent"
+  /\ itemQ' = [itemQ EXCEPT ![o] = Tail(@)]
+  /\ got' = [got EXCEPT ![o] = Append(@, Head(itemQ[o]))]
+  /\ sstate' = [sstate EXCEPT ![o] = "Error"]
+  /\ phase' = [phase EXCEPT ![o] = "stream"]
+  /\ deadline' = [deadline EXCEPT ![o] = NoDeadline]
+  /\ UNCHANGED <<alloc, queues, maps, reply, itemTx, itemRx, kind, oid, target, tmo, adapted, sres, envv, sentFor, now>>
+
 NextDone(o) ==        \* SearchResultDone: Ok(None), result stored, receiver dropped
   /\ phase[o] = "next" /\ itemQ[o] # <<>> /\ Head(itemQ[o]).typ = "done"
   /\ itemQ' = [itemQ EXCEPT ![o] = Tail(@)]
@@ -317,8 +329,15 @@ RecvRef == LET m == Head(s2c)  i == m.id IN
   ELSE IF i \in DOMAIN resmap THEN
        [u |-> used \ {i}, r |-> Restrict(resmap, DOMAIN resmap \ {i}), s |-> seamap]
   ELSE [u |-> used, r |-> resmap, s |-> seamap]
+(* a well-formed envelope carrying a SearchResultDone whose body is not an LDAPResult: under the ID of a search being routed it
+   cannot be delivered as the final result - the driver returns Err (under any other ID it is an unmatched response) *)
+BadDoneHere == s2c # <<>> /\ Head(s2c).typ = "baddone" /\ Head(s2c).id \in DOMAIN seamap
+DrvRecvBadDone ==
+  /\ drv = "run" /\ BadDoneHere
+  /\ drv' = "exitErr" /\ DropAll /\ s2c' = <<>>
+  /\ UNCHANGED <<alloc, itemQ, itemRx, callerv, net, c2s, orphans, tok, hdrop, hist, now>>
 DrvRecvP(U, RS, SS) ==
-  /\ drv = "run" /\ s2c # <<>> /\ Head(s2c).typ # "garbage"
+  /\ drv = "run" /\ s2c # <<>> /\ Head(s2c).typ # "garbage" /\ ~BadDoneHere
   /\ LET m == Head(s2c)  i == m.id IN
      /\ s2c' = Tail(s2c)
      /\ used' = U /\ resmap' = RS /\ seamap' = SS
@@ -379,6 +398,13 @@ SrvOrphan(i, typ) ==
   /\ s2c' = Append(s2c, [id |-> i, typ |-> typ, tok |-> tok + 1, for |-> NoOp])
   /\ UNCHANGED <<alloc, queues, maps, chans, callerv, drv, net, c2s, hdrop, hist, now>>
 
+(* the server "answers" a search with a SearchResultDone it has botched (and considers the search answered) *)
+SrvBadDone(r) ==
+  /\ AllowFaults /\ net \in {"up", "wfail", "stall"} /\ r \in c2s /\ ~r.fin /\ r.kind = "search"
+  /\ s2c' = Append(s2c, [id |-> r.id, typ |-> "baddone", tok |-> 0, for |-> NoOp])
+  /\ c2s' = (c2s \ {r}) \cup {[r EXCEPT !.fin = TRUE]}
+  /\ UNCHANGED <<alloc, queues, maps, chans, callerv, drv, net, orphans, tok, hdrop, hist, now>>
+
 SrvGarbage ==
   /\ AllowFaults /\ net \in {"up", "wfail", "stall"}
   /\ s2c' = Append(s2c, [id |-> 0, typ |-> "garbage", tok |-> 0, for |-> NoOp])
@@ -407,8 +433,9 @@ Tick == ~TimerDue /\ TickCore
 KnownIds == {oid[p] : p \in Ops} \ {0}
 CallerStep == \E o \in Ops : RecvReply(o) \/ ReplyDropped(o) \/ Timeout(o)
                              \/ NextItem(o) \/ NextDone(o) \/ NextClosed(o) \/ NextTimeout(o) \/ NextAbsorb(o)
+                             \/ (AdapterErrors /\ NextAdapterErr(o))
 UserStep   == \E o \in Ops : NextCall(o) \/ Finish(o) \/ Cancel(o) \/ StreamDrop(o)      \* FinishFailed is unreachable through the public API
-DriverStep == DrvScrub \/ DrvOp \/ DrvRecv \/ DrvRecvBad \/ DrvEof \/ DrvReqClosed
+DriverStep == DrvScrub \/ DrvOp \/ DrvRecv \/ DrvRecvBad \/ DrvRecvBadDone \/ DrvEof \/ DrvReqClosed
 StartStep  == \E o \in Ops, k \in {"single", "search", "abandon", "unbind"}, t \in Tmo, a \in BOOLEAN, tg \in KnownIds \cup {0} :
                  /\ k \in Kinds[o]
                  /\ (k = "abandon") <=> (tg # 0)
@@ -419,6 +446,7 @@ ServerStep == \/ \E r \in c2s, typ \in {"res", "ent", "ref", "int", "done"} : Sr
               \/ \E i \in 0..MaxId, typ \in {"res", "ent", "done"} : SrvOrphan(i, typ)
               \/ \E how \in {"eof", "reset", "wfail"} : SrvClose(how)
               \/ SrvGarbage \/ SrvStall \/ SrvResume
+              \/ \E r \in c2s : SrvBadDone(r)
 Next == StartStep \/ CallerStep \/ UserStep \/ DriverStep \/ ServerStep \/ Tick \/ DropHandles
 
 Spec == Init /\ [][Next]_vars
